@@ -119,6 +119,9 @@ class SpecEval:
                 # entry heap is closed under allocation (R7): fields named by the precondition are None or allocated
                 self.st.assume(z3.And(v.t >= 0, v.t < self.st.alloc))
             return v
+        if base.ty.kind == "any" and base.t is not None:
+            # an attribute of a dynamically typed value: some value, determined by the object and the attribute name
+            return V(ANY, ops.UF("getattr", z3.IntSort(), z3.StringSort(), z3.IntSort())(base.t, z3.StringVal(n.attr)))
         raise Unsupported("attribute %s of %s in contract" % (n.attr, base.ty))
 
     def ev_Tuple(self, n):
@@ -888,6 +891,13 @@ def _node_set(name):
 
 SPECFUNS["node_undeclared"] = _node_set("node_undeclared")
 SPECFUNS["node_declared"] = _node_set("node_declared")
+
+
+@specfun("idents_defs")
+def _idents_defs(se, a, kw):
+    """the defs and blocks callable by name in an _Identifiers scope (the value of its `defs` property), as a set of nodes"""
+    from .types import OBJ
+    return ops.mk_setv(OBJ("TagLike"), ops.UF("idents_defs", z3.IntSort(), z3.ArraySort(z3.IntSort(), z3.BoolSort()))(a[0].t))
 
 
 @specfun("any_isinstance")
